@@ -903,7 +903,13 @@ pub fn c07(tier: Tier) -> i32 {
             }
         }
     }
-    let sw4 = refdet::sweep_texts(&items4, &fp, Mode::Semantic);
+    // files in which nothing follows the directive, or only file-level definitions do
+    for (nm, rest) in [("directive-only", ""), ("free-function", "function free ( address t , uint256 a ) { IERC20 ( t ) . transferFrom ( t , t , a / 2 * 3 ) ; }"), ("struct-and-constant", "struct S { uint256 a ; } uint256 constant K = 8 / 2 * 3 ;"), ("error-only", "error E ( ) ;")] {
+        for v in ["^ 0.8.0", "0.8.19", "^ 0.7.0"] {
+            items4.push(l1_item(format!("pragma-alone:{}:{}", nm, v), &toks_of(&format!("pragma solidity {} ; {}", v, rest))));
+        }
+    }
+    let sw4 = refdet::sweep_texts(&items4, &ds, Mode::Semantic);
     require_must(&mut run, &sw4, &["floating_pragma"], "pragma-values");
     absorb(&mut run, sw4, "pragma-values");
     {
